@@ -27,7 +27,7 @@ def reorder (π : ∀ {β : Type}, List β → List β) (c : Case) : Case := { c
 theorem initState_reorder {α : Type} [CommRing α] [LinearOrder α] [IsStrictOrderedRing α] (A : Arith α)
     {π : ∀ {β : Type}, List β → List β} (hπ : NatPerm π) (c : Case) :
     initState A (reorder π c) = permB π (initState A c) := by
-  unfold initState reorder permB
+  unfold initState reorder permB xB
   simp only [List.map_nil, hπ.nat]
 
 theorem runRuleSt'_reorder {α : Type} (A : Arith α) (π : ∀ {β : Type}, List β → List β) (c : Case) (s0 : St α) :
